@@ -9,6 +9,7 @@ mod fixedwindow;
 mod fsutil;
 mod jsonline;
 mod levelgate;
+mod reloadlive;
 mod datezone;
 mod registry;
 mod pattern;
@@ -33,6 +34,8 @@ fn main() {
         "routing" => routing::main(rest),
         "cfgbuild" => cfgbuild::main(rest),
         "fanout" => fanout::main(rest),
+        "reloadlive" => reloadlive::main(rest),
+        "reloadlive-child" => reloadlive::child(rest),
         "datezone" => datezone::main(rest),
         "registry" => registry::main(rest),
         "rolltrace" => rolltrace::main(rest),
